@@ -3,8 +3,8 @@ import os, itertools
 from common import *
 
 PID = 'C17'
-TARGETS = ['Properties/C17.vo', 'Bridge/DescBridge.vo']
-KERNELS = ['G7_auto']
+TARGETS = ['Properties/C17.vo', 'Bridge/DescBridge.vo', 'Bridge/InitBridge.vo']
+KERNELS = ['G7_auto', 'G15_init']      # G15_init: the constructor path that hands a keyword to the descriptor
 PROP_FILE = 'Properties/C17.v'
 
 HEADER_COQ = """From Coq Require Import ZArith List Bool.
@@ -67,9 +67,9 @@ def cq_op(op):
 
 def run(tier, seed, rng):
     maxlen = 3 if tier == 'quick' else 4
-    starts = [('construct', 0, None), ('construct', 2, None), ('construct', 1, 5), ('unpack', 2, 2), ('unpack', 1, 1)]
+    starts = [('construct', 0, None), ('construct', 2, None), ('construct', 1, 5), ('construct', 2, 0), ('unpack', 2, 2), ('unpack', 1, 1)]
     steps = [('set_tracked', 0), ('set_tracked', 3), ('set', 7), ('set', 0), ('del',), ('pack',), ('construct', 1, None),
-             ('construct', 2, 9), ('unpack', 3, 3)]
+             ('construct', 2, 9), ('construct', 3, 0), ('unpack', 3, 3)]
     hs = []
     for cls in ('LenG', 'LenL', 'FunG', 'FunL'):
         for st in starts:
